@@ -171,7 +171,8 @@ impl Language for Swift {
         } else if generic_types.contains(base) {
             base.into()
         } else {
-            format!("{}{}", self.prefix, base)
+            // the declaration escapes a name that is a Swift keyword; a reference has to name the same type
+            swift_keyword_aware_rename(format!("{}{}", self.prefix, base)).into_owned()
         })
     }
 
